@@ -738,7 +738,7 @@ def module_constants(fi: FunctionInfo) -> Dict[str, ast.AST]:
     return {k: v for k, v in cache.items() if k not in local}
 
 
-def paths(fi: FunctionInfo, bindings: Optional[Dict[str, object]] = None, repo=None) -> List[Path]:
+def paths(fi: FunctionInfo, bindings: Optional[Dict[str, object]] = None, repo=None, _depth: int = 0) -> List[Path]:
     """every path through a small function with its facts, returned value and
     stores (engine.patheval); bindings: parameter -> python constant or ast;
     repo given: calls of single-path repository helpers are replaced by what
@@ -747,11 +747,59 @@ def paths(fi: FunctionInfo, bindings: Optional[Dict[str, object]] = None, repo=N
     for k, v in (bindings or {}).items():
         b[k] = v if isinstance(v, ast.AST) else ast.Constant(v)
     post = complement_norm if repo is None else (lambda x: complement_norm(inline_helpers(repo, fi, x)))
-    pe = PathEval(fi.node, b, post=post)
+    pe = PathEval(fi.node, b, post=post, call_hook=_helper_hook(repo or _current_repo(), fi, _depth))
     out = pe.run()
     if pe.truncated:
         raise AnalysisError(f"too many paths through {fi.qualname}")
     return out
+
+
+def _current_repo():
+    """the repository view the running check analyses (lets `paths` look through
+    helpers the rule tables do not know even where a rule does not pass it)"""
+    from engine.src import CURRENT_REPO
+
+    return CURRENT_REPO[0]
+
+
+def _helper_hook(repo, fi: FunctionInfo, depth: int):
+    """paths of private helpers that are NOT in the frozen list of known
+    functions (engine/known_functions.txt) and that E-INL could not expand in
+    place (e.g. a `return` inside a loop over a literal tuple)"""
+    known = getattr(repo, "known_functions", None) if repo is not None else None
+    if repo is None or known is None or depth >= 3:
+        return None
+
+    def hook(call: ast.Call):
+        probe = call
+        f = call.func
+        if isinstance(f, ast.Name) and f.id.endswith("__def"):
+            probe = ast.Call(func=ast.Name(id=f.id[:-5], ctx=ast.Load()), args=call.args, keywords=call.keywords)
+        callee = resolve_call(repo, fi, probe)
+        if callee is None or callee.qualname in known or callee.name == "__init__":
+            return None
+        if not (callee.name.startswith("_") or callee.parent is not None) or (callee.name.startswith("__") and callee.name.endswith("__")):
+            return None
+        if any(isinstance(a, ast.Starred) for a in call.args) or any(k.arg is None for k in call.keywords):
+            return None
+        params = list(callee.named_params)
+        if callee.cls is not None and callee.parent is None and params and params[0] in ("self", "cls"):
+            is_static = any(isinstance(d, ast.Name) and d.id == "staticmethod" for d in callee.node.decorator_list)
+            if not is_static:
+                params = params[1:]
+        elif callee.cls is not None and callee.parent is None:
+            pass
+        b = bind(call, params)
+        a = callee.node.args
+        pos = a.posonlyargs + a.args
+        for x, dv in list(zip(pos[len(pos) - len(a.defaults):], a.defaults)) + [(x, dv) for x, dv in zip(a.kwonlyargs, a.kw_defaults) if dv is not None]:
+            b.setdefault(x.arg, dv)
+        try:
+            return paths(callee, b, None, _depth=depth + 1)
+        except AnalysisError:
+            return None
+
+    return hook
 
 
 def split_ifexp(ps: List[Path]) -> List[Path]:
@@ -946,3 +994,175 @@ def consistent(conds) -> bool:
             if isinstance(e.op, ast.Or) and pol is False and any(v is True for v in vals):
                 return False
     return True
+
+
+# ---------------------------------------------------------------- element-wise reading of sequences
+def _E(k: int) -> ast.Name:
+    return ast.Name(id=f"__e{k}", ctx=ast.Load())
+
+
+class _SubNames(ast.NodeTransformer):
+    def __init__(self, m):
+        self.m = m
+
+    def visit_Name(self, n):
+        if isinstance(n.ctx, ast.Load) and n.id in self.m:
+            from engine.util import clone_ast
+
+            return clone_ast(self.m[n.id])
+        return n
+
+
+def _bind_target(t: ast.AST, v: ast.AST, m: Dict[str, ast.AST]):
+    if isinstance(t, ast.Name):
+        m[t.id] = v
+    elif isinstance(t, (ast.Tuple, ast.List)):
+        for i, e in enumerate(t.elts):
+            if isinstance(v, (ast.Tuple, ast.List)) and len(v.elts) == len(t.elts):
+                _bind_target(e, v.elts[i], m)
+            else:
+                _bind_target(e, ast.Subscript(value=v, slice=ast.Constant(i), ctx=ast.Load()), m)
+
+
+def elementwise(repo, fi: FunctionInfo, e: ast.AST, at: ast.AST, sources: Optional[List[str]] = None, depth: int = 0):
+    """Read a sequence-valued expression element by element: returns
+    (sources, element) where `sources` are the texts of the sequences iterated
+    in lock step and `element` is the i-th element of the value written over the
+    placeholders __e0, __e1, .. (the i-th elements of the sources); None when
+    the value is not built element-wise.  Understood: list/generator
+    comprehensions with one generator and no filter, list()/tuple() of such,
+    map(f, seq), zip(a, b, ..), enumerate is NOT (positions are not elements),
+    a local filled by `acc.append(x)` in one loop, and locals bound once."""
+    from engine.util import clone_ast
+
+    if sources is None:
+        sources = []
+    if depth > 8:
+        return None
+    if isinstance(e, ast.Call) and isinstance(e.func, ast.Name) and e.func.id in ("list", "tuple") and len(e.args) == 1 and not e.keywords:
+        return elementwise(repo, fi, e.args[0], at, sources, depth + 1)
+    if isinstance(e, (ast.ListComp, ast.GeneratorExp)) and len(e.generators) == 1 and not e.generators[0].ifs:
+        g = e.generators[0]
+        r = elementwise(repo, fi, g.iter, at, sources, depth + 1)
+        if r is None:
+            return None
+        _, el = r
+        m: Dict[str, ast.AST] = {}
+        _bind_target(g.target, el, m)
+        return sources, complement_norm(_SubNames(m).visit(clone_ast(e.elt)))
+    if isinstance(e, ast.Call) and isinstance(e.func, ast.Name) and e.func.id == "map" and len(e.args) == 2 and not e.keywords:
+        r = elementwise(repo, fi, e.args[1], at, sources, depth + 1)
+        if r is None:
+            return None
+        _, el = r
+        f = e.args[0]
+        if isinstance(f, ast.Lambda) and len(f.args.args) == 1 and not f.args.defaults:
+            return sources, complement_norm(_SubNames({f.args.args[0].arg: el}).visit(clone_ast(f.body)))
+        return sources, ast.Call(func=clone_ast(f), args=[el], keywords=[])
+    if isinstance(e, ast.Call) and isinstance(e.func, ast.Name) and e.func.id == "zip" and e.args and not e.keywords:
+        els = []
+        for a in e.args:
+            r = elementwise(repo, fi, a, at, sources, depth + 1)
+            if r is None:
+                return None
+            els.append(r[1])
+        return sources, ast.Tuple(elts=els, ctx=ast.Load())
+    if isinstance(e, ast.Name):
+        ex = expander(repo)
+        rd = ex.rd(fi)
+        node = rd.node_of(at)
+        if node is not None:
+            ids = rd.reaching(e.id, node)
+            dns = [rd.node_by_id[i] for i in ids if i >= 0]
+            binds = [d for d in dns if d.kind == "stmt" and isinstance(d.ast, (ast.Assign, ast.AnnAssign)) and _binds(d.ast, e.id)]
+            if len(binds) == 1 and -1 not in ids:
+                v = _assigned_value(binds[0], e.id)
+                muts = [d for d in dns if d not in binds]
+                if v is not None and not muts:
+                    r = elementwise(repo, fi, v, binds[0].ast, sources, depth + 1)
+                    if r is not None:
+                        return r
+                # acc = []; for t in it: acc.append(x)
+                from engine.patheval import _empty_container
+
+                if v is not None and _empty_container(v) and muts:
+                    apps = []
+                    for d in muts:
+                        a = d.ast
+                        if isinstance(a, ast.Expr) and isinstance(a.value, ast.Call) and isinstance(a.value.func, ast.Attribute) and a.value.func.attr == "append" and isinstance(a.value.func.value, ast.Name) and a.value.func.value.id == e.id and len(a.value.args) == 1:
+                            apps.append(a)
+                        else:
+                            apps = None
+                            break
+                    if apps and len(apps) == 1:
+                        loop = getattr(apps[0], "_parent", None)
+                        if isinstance(loop, ast.For) and apps[0] in loop.body and not loop.orelse and not any(isinstance(x, (ast.Break, ast.Continue, ast.If)) for x in ast.walk(loop) if x is not loop):
+                            r = elementwise(repo, fi, loop.iter, loop, sources, depth + 1)
+                            if r is not None:
+                                m = {}
+                                _bind_target(loop.target, r[1], m)
+                                # locals of the loop body assigned before the append
+                                for st in loop.body:
+                                    if st is apps[0]:
+                                        break
+                                    if isinstance(st, ast.Assign) and len(st.targets) == 1:
+                                        _bind_target(st.targets[0], _SubNames(m).visit(clone_ast(st.value)), m)
+                                return sources, complement_norm(_SubNames(m).visit(clone_ast(apps[0].value.args[0])))
+        # a leaf: a parameter or an opaque local
+        t = e.id
+        if t not in sources:
+            sources.append(t)
+        return sources, _E(sources.index(t))
+    if isinstance(e, ast.Attribute):
+        t = xt(e)
+        if t not in sources:
+            sources.append(t)
+        return sources, _E(sources.index(t))
+    return None
+
+
+def element_alternatives(repo, fi: FunctionInfo, el: ast.AST, depth: int = 0) -> List[Tuple[tuple, ast.AST]]:
+    """alternatives of an element expression: calls of repository helpers are
+    replaced by what each of their non-raising paths returns"""
+    from engine.util import clone_ast
+
+    if depth > 3:
+        return [((), el)]
+    for c in ast.walk(el):
+        if not isinstance(c, ast.Call):
+            continue
+        probe = c
+        callee = resolve_call(repo, fi, probe)
+        if callee is None or callee.name == "__init__":
+            continue
+        if any(isinstance(a, ast.Starred) for a in c.args) or any(k.arg is None for k in c.keywords):
+            continue
+        params = list(callee.named_params)
+        if callee.cls is not None and callee.parent is None and params and params[0] in ("self", "cls"):
+            if not any(isinstance(d, ast.Name) and d.id == "staticmethod" for d in callee.node.decorator_list):
+                params = params[1:]
+        b = bind(c, params)
+        try:
+            ps = [p for p in paths(callee, b) if p.ret != RAISE]
+        except AnalysisError:
+            continue
+        out = []
+        for p in ps:
+            r = p.ret if isinstance(p.ret, ast.AST) else ast.Constant(None)
+
+            class R(ast.NodeTransformer):
+                def visit_Call(s_, n):
+                    if n is c_copy_target[0]:
+                        return clone_ast(r)
+                    return s_.generic_visit(n)
+
+            x = clone_ast(el)
+            # locate the copy of c in x by position in walk order
+            idx = [i for i, n in enumerate(ast.walk(el)) if n is c][0]
+            c_copy_target = [list(ast.walk(x))[idx]]
+            x = complement_norm(R().visit(x))
+            for conds2, y in element_alternatives(repo, fi, x, depth + 1):
+                out.append((tuple(p.conds) + tuple(conds2), y))
+        if out:
+            return out
+    return [((), el)]
